@@ -948,7 +948,14 @@ class Authorization(Endpoint):
     def error_by_response_mode(self, response_info, request, error, error_description):
         response_info = self.error_response(response_info, request, error, error_description)
         if "return_uri" not in response_info:
-            response_info["return_uri"] = request["redirect_uri"]
+            # An error travels by redirect only to a redirect URI that is verified for the
+            # client. Otherwise it is returned directly.
+            try:
+                response_info["return_uri"] = get_uri(
+                    self.upstream_get("context"), request, "redirect_uri", self.endpoint_type
+                )
+            except Exception:
+                return response_info
         response_info = self.response_mode(request, **response_info)
         return response_info
 
